@@ -639,7 +639,7 @@ func judgeReplaced(r *Run, j *Judged, cl []*cls, by map[int]*OResp) {
 			// "begun" then, well before its origin call starts - an earlier validation that re-keys that entry
 			// in between, e.g. a 304 with another Vary, leaves it validating a copy the index no longer names)
 			began := func(c *UpCall) uint64 {
-				if x := r.exchFor(c.Owner, c.OwnerOp); x != nil && !c.Fg && x.SeqInv != 0 && x.SeqInv < c.SeqStart {
+				if x := r.exchFor(c.Owner, c.OwnerOp); x != nil && x.SeqInv != 0 && x.SeqInv < c.SeqStart {
 					return x.SeqInv
 				}
 				return c.SeqStart
